@@ -881,6 +881,20 @@ func init() {
 		}
 		var paths, lsteps, pruned int64
 		exh := true
+		// --replay of a lifecycle violation: the recorded action sequence on both kinds of bucket
+		if seq, ok := replaySeq(c, c18Actions); ok {
+			for _, tracked := range []bool{false, true} {
+				w := world.New()
+				l := &c18Life{c: c, tracked: tracked, w: w, bucket: c18Bucket(w, tracked), content: c18Content(11), cs: 2, closedL: -1, stats: &stats}
+				for _, a := range seq {
+					l.Step(a)
+				}
+				l.Done()
+			}
+			r.Set("replayed_actions", int64(len(seq)))
+			r.Set("exhaustive", false)
+			return
+		}
 		for _, tracked := range []bool{false, true} {
 			tracked := tracked
 			ps := e1.Paths(len(c18Actions), depth, func() e1.Runner {
